@@ -4,7 +4,7 @@
    the tree model returns (Model.getid / Model.get).  Composition of the L3 refinement
    (Bits*Proofs) with the id-loop simulation (FlatProofs). *)
 From Slim Require Import Base Keys KeysProofs ListFacts Model TrieInv BuildProofs QueryProofs ConsistProofs
-  Stat StatProofs Flat FlatProofs BitmapRank BitmapRank2 Bits BitsWfProofs BitsFlatProofs Msg.
+  Stat StatProofs GetIntProofs Flat FlatProofs BitmapRank BitmapRank2 Bits BitsWfProofs BitsFlatProofs Msg.
 From Coq Require Import Sorting.Sorted ZifyNat ZifyN ZifyBool.
 
 (* ---------- every node of the tree sits at its id in the flat node list ---------- *)
@@ -187,7 +187,7 @@ Proof.
   intros Hb Em Ev Hf. unfold trie_height in Hf.
   destruct (t_root T) as [r|] eqn:Hr.
   2:{ unfold encode_trie in Em. rewrite Hr in Em. injection Em as <-. unfold mgetid, getid, getid_node. rewrite Hr. reflexivity. }
-  pose proof (Hem o keys vals T r Hb Hr m Em) as Hm.
+  pose proof (Hem T r Hr m Em) as Hm.
   destruct (encode_msg_fields _ _ _ _ _ Hm) as (Hnt & Hlp). specialize (Hnt (flat_nodes_ne r)).
   pose proof (built_ids_ok o keys vals T r Hb Hr) as I.
   pose proof (root_id0 o keys vals T r Hb Hr) as Hid0.
@@ -200,20 +200,20 @@ Proof.
   destruct (descend (nibs q) (length (nibs q)) r 0) as [[[c i] v]|] eqn:Ed; cbn [ids_of]; [|reflexivity].
   pose proof (descend_subtree _ _ _ _ _ _ _ Ed) as Hsub.
   destruct (t_leafpfx T) eqn:Elp.
-  - destruct (m_leafpfx m) as [lp|] eqn:Emlp; [|apply Hlp in Emlp; discriminate].
+  - destruct (m_leafpfx m) as [lp|] eqn:Emlp; [|destruct Hlp as [Hlp _]; discriminate (Hlp eq_refl)].
     assert (msess_tail m vs (tree_id c) v = Ok (sess_tail c v)) as Ht.
     { unfold msess_tail, sess_tail. destruct v; [|reflexivity].
       destruct c as [id ord tail eidx|id big step pfx fc ch]; cbn [tree_id].
       - rewrite (node_leaf o keys vals T r Hb Hr m vs Em Ev id ord tail eidx Hsub). reflexivity.
       - pose proof (flat_nodes_at o keys vals T r _ Hb Hr Hsub) as Hn. cbn [tree_id view_of_tree] in Hn.
-        destruct (children_fw (flat_nodes r) _ _ _ m vs (Hwf o keys vals T r Hb Hr) Hm Ev _ _ _ _ _ _ _ Hn) as (ith & wsz & from & to & bm & plen & pfxb & Hgn & _).
+        destruct (children_fw (flat_nodes r) _ _ _ m vs (Hwf o keys vals T r Hb Hr) (Hem T r Hr m Em) Ev _ _ _ _ _ _ _ Hn) as (ith & wsz & from & to & bm & plen & pfxb & Hgn & _).
         rewrite Hgn. reflexivity. }
     rewrite Ht. unfold bind.
     destruct (sess_tail c v) as [tail|].
     + destruct (Nat.eqb i (length (nibs q))); [reflexivity|]. destruct (bytes_eqb tail (skipn (i / 2) q)); reflexivity.
     + destruct (Nat.eqb i (length (nibs q))); reflexivity.
   - destruct (m_leafpfx m) as [lp|] eqn:Emlp; [|reflexivity].
-    exfalso. destruct Hlp as [_ Hlp]. rewrite (Hlp eq_refl) in Emlp. discriminate.
+    destruct Hlp as [_ Hlp]. discriminate (Hlp eq_refl).
 Qed.
 
 Theorem mget_get o keys vals T m vs q fuel :
@@ -228,7 +228,7 @@ Proof.
   destruct (getid_node_leaf o keys vals T r lidx q c B Eg) as (Hsub & Hleaf).
   destruct c as [id ord tail eidx|]; [|discriminate]. cbn [tree_id leaf_value].
   rewrite (node_leaf o keys vals T r Hb Hr m vs Em Ev id ord tail eidx Hsub).
-  pose proof (Hem o keys vals T r Hb Hr m Em) as Hm. pose proof (Hwf o keys vals T r Hb Hr) as W.
+  pose proof (Hem T r Hr m Em) as Hm. pose proof (Hwf o keys vals T r Hb Hr) as W.
   pose proof (leaves_fw _ _ _ _ m W (flat_nodes_ne r) Hm) as HL.
   destruct (t_leaves T) as [elts|] eqn:El.
   - destruct HL as [_ HL].
